@@ -27,6 +27,7 @@ class MemTemplates:
         self.variants = {}      # (pretty, 'off'|'nooff') -> Template
         self.align_consts = set()
         self.problems = []
+        self._seen = []
         self.all = []           # every successful emitting path (key, Template), including ones that differ only in an alignment test
 
 
@@ -62,8 +63,10 @@ def extract_mem(it, row, tabs, configs):
             key = (pretty, multiple, 'off' if (off_dec and off_dec[0]) or (not off_dec and uses_off) else 'nooff')
             if not off_dec:
                 key = (pretty, multiple, 'always-off' if uses_off else 'never-off')
-            if key in out.variants:
+            adec = tuple(sorted((repr(pe.norm_cond(c)), bool(tk)) for c, tk, _ in t.path.decisions if align in list(pe.sym_walk(c))))
+            if any(k_ == key and a_ == adec for k_, _t, a_ in out._seen):
                 out.problems.append('two successful paths for %r' % (key,))
+            out._seen.append((key, t, adec))
             out.variants[key] = t
             out.all.append((key, t))
     return out
@@ -174,7 +177,7 @@ def summarize_access(tu, fname):
     paths = runtime.summarize(tu, fname, mk)
     ptypes = [tu.desugar(astdb.qtype(p)) for p in ps]
     rtype = tu.desugar(astdb.qtype(f)).split('(')[0].strip()
-    return dict(paths=paths, ptypes=ptypes, rtype=rtype, pnames=[p['name'] for p in ps])
+    return dict(paths=paths, ptypes=ptypes, rtype=rtype, pnames=[p['name'] for p in ps], tu=tu, fname=fname)
 
 
 def mem_location(v, addr_name='addr'):
@@ -224,6 +227,46 @@ def raw_loads(v):
     return out
 
 
+def aligned_alias_load(summ, p, access):
+    """the path returns *(T*)&mem->data[addr] where T is a typedef carrying __may_alias__ of `access` bits, after a decision that
+    the address is a multiple of access/8"""
+    tu, fname = summ.get('tu'), summ.get('fname')
+    if tu is None or fname not in tu.functions:
+        return False
+    base = p.ret
+    while is_sym(base) and base.op == 'cast':
+        base = base.args[0]
+    if not (is_sym(base) and base.op == 'deref' and mem_location(base)):
+        return False
+    w = ct.tinfo(base.ctype)
+    if w[0] != 'int' or w[1] != access:
+        return False
+    # every typed dereference of the function body goes through a may_alias typedef
+    derefs = []
+    for n in astdb.walk(astdb.fn_body(tu.functions[fname])):
+        if n.get('kind') == 'UnaryOperator' and n.get('opcode') == '*':
+            sub = astdb.strip(astdb.kids(n)[0])
+            if sub.get('kind') == 'CStyleCastExpr':
+                pt = (astdb.qtype(sub) or '').replace('const ', '').replace('volatile ', '').strip()
+                name = pt.rstrip('*').strip()
+                td = tu.typedefs.get(name)
+                derefs.append(td is not None and any(c.get('kind') == 'MayAliasAttr' for c in td.get('inner', [])))
+    if not derefs or not all(derefs):
+        return False
+    # alignment established on this path: ((integer)address & (bytes - 1)) == 0
+    for c, taken, _l in p.decisions:
+        c0 = pe.norm_cond(c)
+        if is_sym(c0) and c0.op == '==' and taken and c0.args[1] == 0:
+            m = pe.strip_casts(c0.args[0])
+            if is_sym(m) and m.op == '&' and len(m.args) == 2:
+                x, k = m.args
+                if isinstance(x, int):
+                    x, k = k, x
+                if k == access // 8 - 1 and mem_location(pe.strip_casts(x)):
+                    return True
+    return False
+
+
 def check_plain_load(chk, rule, row, summ, site, cfg='le'):
     sem = row['sem']
     nm = row['name']
@@ -237,6 +280,14 @@ def check_plain_load(chk, rule, row, summ, site, cfg='le'):
         probs.append('returns %s, the operand slot is %r' % (summ['rtype'], want_r))
     for p in summ['paths']:
         ev = mem_events(p)
+        if cfg == 'le' and not ev and aligned_alias_load(summ, p, access):
+            # GNU C: a direct read through a may_alias type on a path that has established the alignment of the address is well-defined
+            # and reads the same `access` bits as the byte copy
+            s_ = runtime.sym_slice(p.ret) if not isf else None
+            if not isf and (s_[0] != 'slice' or canon_slice(s_)[1:] != ((access, 's' if sem.get('ext') == 's' else 'z', Wres) if access < Wres
+                                                                         else (Wres, 'z', Wres))):
+                probs.append('aligned direct read returns %r; specification: %d bits extended to %d' % (p.ret, access, Wres))
+            continue
         if cfg == 'le':
             copies = [e for e in ev if e[0] == 'copy-from-mem']
             if len(ev) != 1 or len(copies) != 1:
@@ -364,6 +415,13 @@ def check_atomic_le(chk, rule, row, summ, site, tu):
             verdict = v_
         return verdict
     zero_case = {}
+    if len(summ['paths']) > 1:
+        # paths that differ only in a decision, not in what they do (same memory events, same result), are one behaviour
+        sig = {}
+        for p in summ['paths']:
+            sig.setdefault((repr(mem_events(p)), repr(p.ret)), p)
+        if len(sig) == 1:
+            summ = dict(summ, paths=[list(sig.values())[0]])
     if len(summ['paths']) != 1:
         # the only recognised branching: a shortcut for a zero operand of an operator whose identity is 0 (x op 0 == x), where an
         # atomic load is a valid linearisation of the read-modify-write
